@@ -94,7 +94,10 @@ static std::string emit_list(const Environment& env, const FuncFrame& frame, boo
     a64::Builder cb(&code);
     e = prolog ? cb.emit_prolog(frame) : cb.emit_epilog(frame);
     if (e != Error::kOk) return "!" + err_name(e);
-    return dump_nodes(env.arch(), cb);
+    std::string text = dump_nodes(env.arch(), cb);
+    // C07_ASM=1 (QA only): also encode the list with the real assembler and report what it refuses
+    if (getenv("C07_ASM")) { Error fe = cb.finalize(); if (fe != Error::kOk) text += " !asm:" + err_name(fe); }
+    return text;
   }
   else {
     x86::Builder cb(&code);
